@@ -250,6 +250,13 @@ class RealMk:
 
 
 # ------------------------------------------------------------------ results
+class Pair:
+    """results of two executions of the function under contract (relational properties)"""
+
+    def __init__(self, a, b):
+        self.a, self.b = a, b
+
+
 class Res:
     """uniform view of a returned flag array (model MArr/Arr, symbolic or concrete)"""
 
@@ -257,6 +264,12 @@ class Res:
         self.value = value
         self.stats = None
         self.path = None
+        self.a = self.b = None
+        if isinstance(value, Pair):
+            # two executions (self-composition): flags of both, common length from the first
+            self.a, self.b = Res(value.a), Res(value.b)
+            self.data, self.maskarr = self.a.data, self.a.maskarr
+            return
         if isinstance(value, MArr):
             self.data, self.maskarr = value._data, value._mask
         elif isinstance(value, Arr):
@@ -615,6 +628,7 @@ def verify_case(T, case, timeout_ms=None, want=None, exclude=None):
     exclude = exclude or {}
     cname = case.name
     out = []
+    solve.reset_caches()
     if getattr(case, "is_lemma", False):
         for nm, assumptions, goal in case.lemmas():
             short = "lemma." + nm
